@@ -19,7 +19,8 @@ RULE = ('fixed corpus (one case per anchored mechanism: every scheme/encrypt/use
         'qop/algorithm variants, guessable passwords of absent users, stolen/forged session cookies, every gateway configuration) + an '
         'exhaustive product over the digest grammar (dropped-field subsets x qop x algorithm x credential kind) + seeded random cases; an '
         'auth case is (user table, realm, method, uri, users-table form, encrypt, header recipe) driven through the functions directly and, '
-        'for a sample, through HTTP+Dispatcher+Controller using the documented idiom; non-trivial = an Authorization header is sent '
+        'for a sample, through HTTP+Dispatcher+Controller using the documented idiom; session and vhost cases also through circuits.web.wsgi.Application '
+        '(hand-built PEP 3333 environs), with requests whose address-like headers claim another client\'s / a gateway\'s address; non-trivial = an Authorization header is sent '
         '(auth) / some request presents a cookie it must not profit from while data is stored (session) / a forwarded host that maps to '
         'another prefix than Host is sent under a configured gateway list (vhost); distinct = hash of the declarative case')
 ASSUMPTIONS = [
@@ -43,7 +44,8 @@ REQUIRED = ['second_check_on_same_request', 'ref_selfcheck_ok', 'direct_accept_d
             'e2e_secret_served', 'e2e_refused', 'e2e_challenge_401',
             'session_data_returned_to_owner', 'session_stolen_sid_other_ip', 'session_stolen_sid_other_agent', 'session_forged_sid',
             'session_fresh_ids_issued', 'session_e2e_steps',
-            'vhost_forwarded_host_honoured_for_gateway', 'vhost_untrusted_remote_sends_forwarded_host', 'vhost_e2e_cases']
+            'vhost_forwarded_host_honoured_for_gateway', 'vhost_untrusted_remote_sends_forwarded_host', 'vhost_e2e_cases',
+            'vhost_wsgi_cases', 'vhost_untrusted_remote_claims_gateway_address', 'session_wsgi_steps', 'session_request_claims_another_address']
 REQUIRED_OBLIGATIONS = ['AUTH_ONLY_IF', 'AUTH_IF', 'SESSION_BINDING', 'SESSION_FRESH_ID', 'GATEWAY_ONLY_IF']
 WORKER_TIMEOUT = {'quick': 300, 'thorough': 1500}
 
@@ -501,6 +503,33 @@ def auth_known(case):
 # =================================================================================================
 # SESSIONS
 # =================================================================================================
+def wsgi_environ(remote_ip, path, headers, qs='', env_order='addr-first'):
+    """A PEP 3333 environ built by hand (not by the package): REMOTE_ADDR is the peer's address as the server saw it, every request
+    header becomes HTTP_<NAME>.  env_order: whether REMOTE_ADDR precedes or follows the HTTP_* keys (both occur in real servers)."""
+    import io
+    base = {'REQUEST_METHOD': 'GET', 'SERVER_NAME': 'test.example', 'SERVER_PORT': '80', 'SERVER_PROTOCOL': 'HTTP/1.1', 'QUERY_STRING': qs,
+            'SCRIPT_NAME': '', 'PATH_INFO': path, 'CONTENT_TYPE': '', 'CONTENT_LENGTH': '', 'wsgi.version': (1, 0), 'wsgi.input': io.BytesIO(b''),
+            'wsgi.errors': io.StringIO(), 'wsgi.multithread': False, 'wsgi.multiprocess': False, 'wsgi.run_once': False, 'wsgi.url_scheme': 'http'}
+    http = {'HTTP_' + k.upper().replace('-', '_'): v for k, v in headers}
+    addr = {'REMOTE_ADDR': remote_ip, 'REMOTE_PORT': '45000'}
+    env = {}
+    for part in ((base, addr, http) if env_order == 'addr-first' else (base, http, addr)):
+        env.update(part)
+    return env
+
+
+def wsgi_call(app, env):
+    got = {}
+
+    def start_response(status, headers, exc_info=None):
+        got['status'], got['headers'] = status, headers
+    body = app(env, start_response)
+    if isinstance(body, (bytes, str)):
+        body = [body]
+    data = b''.join(x if isinstance(x, bytes) else str(x).encode('utf-8') for x in body)
+    return got.get('status', ''), got.get('headers', []), data
+
+
 def fp_of(case, client):
     ip, agent = client['ip'], client.get('agent') or ''
     return ip + agent if case.get('fp_concat') else (ip, agent)
@@ -517,6 +546,18 @@ class SessionWorld:
         self.w = Wire()
         self.sessions = Sessions(self.name) if self.name != 'circuits' else Sessions()
         self.e2e = case.get('via') == 'e2e'
+        self.wsgi = case.get('via') == 'wsgi'
+        if self.wsgi:
+            from circuits.web.wsgi import Application
+
+            def index(ctl, w=None):
+                seen = dict(ctl.session)
+                if w:
+                    with ctl.session as d:
+                        d['k'] = w
+                return json.dumps({'sid': ctl.session.sid, 'data': seen})
+            self.w = Application()
+            type('Root', (Controller,), {'index': index})().register(self.w)
         if self.e2e:
             from circuits.web.dispatchers import Dispatcher
             from circuits.web.http import HTTP
@@ -531,13 +572,37 @@ class SessionWorld:
             Dispatcher().register(self.w)
             type('Root', (Controller,), {'index': index})().register(self.w)
         self.sessions.register(self.w)
-        self.w.settle()
+        if self.wsgi:
+            while len(self.w):
+                self.w.flush()
+        else:
+            self.w.settle()
 
-    def step(self, client, cookie, write):
+    def step(self, client, cookie, write, hdrs=()):
         """-> (sid given to the request, data visible to the request, cookie value sent back)"""
         from vlib.inject import FakeSock
         sock = FakeSock(peer=(client['ip'], 40000 + len(client['ip'])))
         try:
+            if self.wsgi:
+                from http.cookies import SimpleCookie
+                headers = [('Host', 'test.example')] + [tuple(h) for h in hdrs]
+                if client.get('agent') is not None:
+                    headers.append(('User-Agent', client['agent']))
+                if cookie is not None:
+                    headers.append(('Cookie', 'other=1; %s=%s' % (self.name, cookie)))
+                env = wsgi_environ(client['ip'], '/', headers, qs=('w=' + write) if write else '', env_order=self.case.get('env_order', 'addr-first'))
+                status, rh, body = wsgi_call(self.w, env)
+                if not status.startswith('200'):
+                    raise Inconclusive('session wsgi request not answered 200: %r %r' % (status, body[:80]))
+                doc = json.loads(body.decode())
+                sent = None
+                for k, v in rh:
+                    if k.lower() == 'set-cookie':
+                        c = SimpleCookie()
+                        c.load(v)
+                        if self.name in c:
+                            sent = c[self.name].value
+                return doc['sid'], doc['data'], sent
             if self.e2e:
                 from http.cookies import SimpleCookie
                 lines = ['GET /%s HTTP/1.1' % ('?w=' + write if write else ''), 'Host: test.example']
@@ -545,6 +610,7 @@ class SessionWorld:
                     lines.append('User-Agent: ' + client['agent'])
                 if cookie is not None:
                     lines.append('Cookie: other=1; %s=%s' % (self.name, cookie))
+                lines += ['%s: %s' % tuple(h) for h in hdrs]
                 self.w.feed(sock, [('\r\n'.join(lines) + '\r\n\r\n').encode('ascii')])
                 out = self.w.written(sock)
                 head, _, body = out.partition(b'\r\n\r\n')
@@ -567,6 +633,8 @@ class SessionWorld:
                 hs['User-Agent'] = client['agent']
             if cookie is not None:
                 hs['Cookie'] = 'other=1; %s=%s' % (self.name, cookie)
+            for k, v in hdrs:
+                hs[k] = v
             req = Request(sock, 'GET', 'http', '/', (1, 1), '', hs, server=self.w)
             resp = Response(req)
             self.w.inject(request_event(req, resp))
@@ -620,9 +688,17 @@ def run_session(case):
         fp = fp_of(case, cl)
         presented, kind = cookie_text(st.get('cookie'), i, last, clients, case)
         write = st.get('write')
-        sid, seen, sent = world.step(cl, presented, write)
+        hdrs = []
+        if st.get('claims') is not None:
+            # headers by which a client may CLAIM somebody else's address; the fingerprint is the peer address the server saw
+            other = clients[st['claims']]['ip']
+            hdrs = [[h, other] for h in ('Remote-Addr', 'X-Forwarded-For', 'X-Real-IP', 'Remote-Host')]
+            marks.add('session_request_claims_another_address')
+        sid, seen, sent = world.step(cl, presented, write, hdrs)
         if world.e2e:
             marks.add('session_e2e_steps')
+        if world.wsgi:
+            marks.add('session_wsgi_steps')
         legit = presented is not None and issued.get(presented) == fp
         ctx = {'step': n, 'client': cl, 'presented': presented, 'presented_kind': kind, 'got_sid': sid, 'got_data': seen,
                'cookie_sent_back': sent}
@@ -684,7 +760,22 @@ def vhost_route(case, xfh, host=None, force_attr=False):
         vh.trusted_gateways = gw        # the neutralised twin: what __init__ should have stored
     host = case['host'] if host is None else host
     sock = FakeSock(peer=(case['remote'], 45000))
+    claim = [[hn, case['claims']] for hn in ('Remote-Addr', 'X-Real-IP', 'Remote-Host')] if case.get('claims') else []
     try:
+        if case.get('via') == 'wsgi':
+            from circuits.web import Controller
+            from circuits.web.wsgi import Application
+            app = Application()
+            vh.register(app)
+            for chan in ['/'] + sorted({'/' + p for p in case['domains'].values()}):
+                type('C', (Controller,), {'channel': chan, 'index': (lambda c: lambda self, *a, **kw: 'AT ' + c)(chan),
+                                          'x': (lambda c: lambda self, *a, **kw: 'AT ' + c + ' x')(chan)})().register(app)
+            while len(app):
+                app.flush()
+            headers = [('Host', host)] + ([('X-Forwarded-Host', xfh)] if xfh is not None else []) + \
+                ([('X-Forwarded-For', case['xff'])] if case.get('xff') else []) + [tuple(x) for x in claim]
+            status, _rh, body = wsgi_call(app, wsgi_environ(case['remote'], case['path'], headers, env_order=case.get('env_order', 'addr-first')))
+            return status[:3] + ' ' + body.decode('latin-1')[:40]
         if case.get('via') == 'e2e':
             from circuits.web import Controller
             from circuits.web.dispatchers import Dispatcher
@@ -701,6 +792,7 @@ def vhost_route(case, xfh, host=None, force_attr=False):
                 lines.append('X-Forwarded-Host: ' + xfh)
             if case.get('xff'):
                 lines.append('X-Forwarded-For: ' + case['xff'])
+            lines += ['%s: %s' % tuple(x) for x in claim]
             w.feed(sock, [('\r\n'.join(lines) + '\r\n\r\n').encode('ascii')])
             out = w.written(sock)
             if not out.startswith(b'HTTP/1.1 '):
@@ -716,6 +808,8 @@ def vhost_route(case, xfh, host=None, force_attr=False):
             hs['X-Forwarded-Host'] = xfh
         if case.get('xff'):
             hs['X-Forwarded-For'] = case['xff']     # claims to come from a gateway: must not matter
+        for k, v in claim:
+            hs[k] = v
         req = Request(sock, 'GET', 'http', case['path'], (1, 1), '', hs, server=w)
         w.inject(request_event(req, Response(req)))
         return req.path
@@ -727,6 +821,10 @@ def run_vhost(case, force_attr=False):
     problems, oks, marks = [], {}, set()
     if case.get('via') == 'e2e':
         marks.add('vhost_e2e_cases')
+    if case.get('via') == 'wsgi':
+        marks.add('vhost_wsgi_cases')
+    if case.get('claims') and case['gateways'] and case['claims'] in case['gateways'] and case['remote'] not in case['gateways']:
+        marks.add('vhost_untrusted_remote_claims_gateway_address')
     with_h = vhost_route(case, case['xfh'], force_attr=force_attr)
     without = vhost_route(case, None, force_attr=force_attr)
     first = (case['xfh'] or '').split(',')[0].strip().lower()
@@ -938,15 +1036,23 @@ def S(clients, steps, **kw):
     return c
 
 
-def step(client, cookie=None, write=None):
-    return {'client': client, 'cookie': cookie, 'write': write}
+def step(client, cookie=None, write=None, claims=None):
+    st = {'client': client, 'cookie': cookie, 'write': write}
+    if claims is not None:
+        st['claims'] = claims
+    return st
 
 
 def session_corpus():
     out = []
     cl = [{'ip': '10.0.0.1', 'agent': 'Mozilla/5.0'}, {'ip': '10.0.0.2', 'agent': 'Mozilla/5.0'}, {'ip': '10.0.0.1', 'agent': 'curl/8.0'},
           {'ip': '10.0.0.1', 'agent': None}, {'ip': '10.0.0.1', 'agent': 'Mozilla/5.0'}]
-    for via in ('direct', 'e2e'):
+    for via, order in (('direct', None), ('e2e', None), ('wsgi', 'addr-first'), ('wsgi', 'addr-last')):
+        # a stolen cookie presented from elsewhere together with headers that claim the owner's address
+        out.append(S(cl, [step(0, None, 'tok-a'), step(0, ['own']), step(1, ['of', 0], claims=0), step(2, ['of', 0], claims=0), step(1, ['of', 0]),
+                          step(1, None, 'tok-b', claims=0), step(0, ['of', 1]), step(0, ['of', 1], claims=1), step(0, ['own'])],
+                     via=via, **({'env_order': order} if order else {})))
+    for via in ('direct', 'e2e', 'wsgi'):
         for name in ('circuits', 'sid'):
             out.append(S(cl, [
                 step(0, None, 'tok-a'), step(0, ['own']), step(0, ['own'], 'tok-a2'), step(0, ['own']),
@@ -991,9 +1097,17 @@ def vhost_corpus():
     out.append(V(None, '6.6.6.6', 'a.example', 'b.example', gw_omitted=True))
     out.append(V(['10.0.0.1'], '6.6.6.6', 'a.example', 'b.example', xff='10.0.0.1'))
     out.append(V(['10.0.0.1'], '6.6.6.6', 'a.example', 'b.example', xff='10.0.0.1', via='e2e'))
+    # an untrusted peer that CLAIMS a gateway's address in address-like request headers, every front end, both environ orders
+    for via, order in (('direct', None), ('e2e', None), ('wsgi', 'addr-first'), ('wsgi', 'addr-last')):
+        for remote in ('6.6.6.6', '10.0.0.1'):
+            for path in ('/', '/x'):
+                out.append(V(['10.0.0.1'], remote, 'a.example', 'b.example', path=path, via=via, claims='10.0.0.1', **({'env_order': order} if order else {})))
+                out.append(V(['10.0.0.1', '10.0.0.2'], remote, 'other.example', 'a.example', path=path, via=via, claims='10.0.0.2', xff='10.0.0.1',
+                             **({'env_order': order} if order else {})))
     for gw in (['10.0.0.1'], []):
         for remote in ('10.0.0.1', '6.6.6.6'):
             for path in ('/', '/x'):
+                out.append(V(gw, remote, 'a.example', 'b.example', path=path, via='wsgi'))
                 out.append(V(gw, remote, 'a.example', 'b.example', path=path, via='e2e'))
                 out.append(V(gw, remote, 'other.example', 'a.example, b.example', path=path, via='e2e'))
     return out
@@ -1154,15 +1268,20 @@ def gen_session(rng):
             ck = ['suffix', rng.randrange(n), rng.choice(['x', '/x', '0'])]
         else:
             ck = ['forged', rng.choice(['nosuchslash', 'a/b', '/', 'a/', '/b', '0' * 32 + '/' + '0' * 40])]
-        steps.append(step(i, ck, 'tok-%d' % k if rng.random() < 0.5 or k == 0 else None))
-    return S(clients, steps, via='e2e' if rng.random() < 0.2 else 'direct', cookie_name=rng.choice(['circuits', 'circuits', 'sid']))
+        steps.append(step(i, ck, 'tok-%d' % k if rng.random() < 0.5 or k == 0 else None, claims=rng.randrange(n) if rng.random() < 0.25 else None))
+    r = rng.random()
+    case = S(clients, steps, via='e2e' if r < 0.2 else 'wsgi' if r < 0.45 else 'direct', cookie_name=rng.choice(['circuits', 'circuits', 'sid']))
+    if case['via'] == 'wsgi':
+        case['env_order'] = rng.choice(['addr-first', 'addr-last'])
+    return case
 
 
 def gen_vhost(rng):
     gw = rng.choice(GATEWAYS[1:] + GATEWAYS[2:] + [None])
     return V(gw, rng.choice(REMOTES), rng.choice(['a.example', 'b.example', 'other.example', 'b.example:8000']), rng.choice(XFHS),
-             path=rng.choice(['/', '/x', '/x/y']), via='e2e' if rng.random() < 0.15 else 'direct',
-             gw_type=rng.choice(['list', 'tuple', 'set']), xff=rng.choice([None, None, '10.0.0.1', '10.0.0.1, 6.6.6.6']))
+             path=rng.choice(['/', '/x', '/x/y']), via=rng.choice(['e2e', 'wsgi', 'wsgi', 'direct', 'direct', 'direct', 'direct']),
+             gw_type=rng.choice(['list', 'tuple', 'set']), xff=rng.choice([None, None, '10.0.0.1', '10.0.0.1, 6.6.6.6']),
+             claims=rng.choice([None, None, '10.0.0.1', '10.0.0.2', '10.0.0.11']), env_order=rng.choice(['addr-first', 'addr-last']))
 
 
 def gen_case(rng):
